@@ -41,9 +41,13 @@ Definition upper_char (c : ascii) : ascii :=
   let n := code c in if (97 <=? n) && (n <=? 122) then ch (n - 32) else c.
 Definition ieq (a b : ascii) : bool := aeqb (upper_char a) (upper_char b).
 
+(* the label field of a fixed-form line without its blanks: line[:5].replace(" ", "") *)
+Definition label_chars (t : text) : text := filter (fun c => negb (aeqb c " "%char)) t.
+
 (* _is_fix_cont *)
 Definition is_fix_cont (l : text) : bool :=
-  (5 <? length l) && negb (aeqb (nth 5 l " "%char) " "%char) && text_eqb (firstn 5 l) (repeat " "%char 5).
+  (5 <? length l) && negb (aeqb (nth 5 l " "%char) " "%char) && negb (aeqb (nth 5 l " "%char) "0"%char)
+  && text_eqb (firstn 5 l) (repeat " "%char 5).
 (* _is_fix_comment, non strict, f2py disabled *)
 Definition is_fix_comment (l : text) : bool :=
   match l with
@@ -280,7 +284,7 @@ Definition get_source_item (s : rst) : option ritem * rst :=
           if 2 <=? nbad then (None, set_err s1)                         (* SyntaxErrorLine: not modelled *)
           else if Nat.eqb nbad 1 then free_item fuel line false start (set_free s1)   (* switch to free form *)
           else
-            let lab := strip (firstn 5 line) in
+            let lab := label_chars (firstn 5 line) in
             let label := match lab with [] => None | _ => Some (nat_of_digits lab) end in
             let '(name, rest) := extract_construct_name (skipn 6 line) in
             let body := match name with Some _ => rest | None => skipn 6 line end in
